@@ -371,6 +371,30 @@ pub fn walk(bytes: &[u8], password: &[u8], cfg: WalkCfg, inv_objects: Option<&[(
                     walk_file(&mut w, &file, inv_objects);
                     // dropping the document is part of the walk (drop code runs under the meters)
                     w.call("drop", move || drop(file));
+                } else if !w.stop {
+                    // the document does not open: this is what the recovery scan is for. It runs on the
+                    // bare storage (no cross-reference table), to exhaustion (capped)
+                    let opts = if cfg.tolerant { pdf::object::ParseOptions::tolerant() } else { pdf::object::ParseOptions::strict() };
+                    let storage = w.call("Storage::with_cache", || pdf::file::Storage::with_cache(bytes.to_vec(), opts, seams::SimObjCache(ctl.clone()), seams::SimStmCache(ctl.clone()), seams::SimLog(ctl.clone())));
+                    if let Some(Ok(storage)) = storage {
+                        let r = w.call("Storage::scan", || {
+                            let (mut n, mut ok) = (0u64, 0u64);
+                            for item in storage.scan() {
+                                n += 1;
+                                if item.is_ok() {
+                                    ok += 1;
+                                }
+                                if n >= 3000 {
+                                    break;
+                                }
+                            }
+                            (n, ok)
+                        });
+                        if let Some((n, ok)) = r {
+                            w.h.u64(n);
+                            w.h.u64(ok);
+                        }
+                    }
                 }
                 let m = meter::stop();
                 w.res.peak = m.peak;
